@@ -10,6 +10,10 @@
 // The three L3 lists always have one slot per L2 CPU: slot (g, c) holds c when atom(c) belongs to L3 group g
 // and otherwise a placeholder CPU id 8 + 8g + c that belongs to no L2 atom (a CPU whose L2 information is
 // missing); so the lists are disjoint, duplicate free and of literal length whatever the membership is.
+// The instances run CBMC in path-exploration mode (--paths lifo, spec 'checks'): the function's flush decisions
+// fork the exploration instead of merging vector states (the merged encoding has symbolic-size reallocations and
+// exceeds 18 GB even for two atoms); on every path sizes, capacities and buffers are literals, ids and
+// maxGroupSize stay symbolic and the per-path SAT queries decide the checks.
 // Topology preconditions (physical cache hierarchy): L2 atoms disjoint and duplicate free, L3 groups
 // disjoint, all CPUs of one atom in the same L3 group (or in none), non-negative ids.
 //
@@ -119,7 +123,7 @@ VF_NOINLINE static void scanGroup(const ThreadGroup& tg, int32_t t, int32_t cap,
 extern "C" void vf_main() {
   // --- symbolic part of the topology: L3 membership of each atom, maxGroupSize (drawn up front)
   int32_t l3of[3] = {-1, -1, -1};
-#ifdef VF_L3LIT  // development: literal membership, decimal digits (atom 0 = lowest digit), digit 0 = none
+#ifdef VF_L3LIT  // debugging aid only: literal membership, decimal digits (atom 0 = lowest digit), digit 0 = none
   for (int k = 0, d = VF_L3LIT; k < kNA; ++k, d /= 10) l3of[k] = d % 10 - 1;
 #else
   for (int k = 0; k < kNA; ++k) l3of[k] = static_cast<int32_t>(vf_range_u8(0, VF_NL3)) - 1;
